@@ -902,6 +902,7 @@ impl Scanner for EntryScanner<'_> {
 
         // Now convert token by token.
         loop {
+            self.zonefile.buf.require_token()?;
             self.convert_charstr(&mut write)?;
             if self.zonefile.buf.is_line_feed() {
                 break;
